@@ -14,10 +14,15 @@ from .common import frac_str, Infra, VERIF
 
 RULE = ('exact stream: every ordered pair of lattice points of a 9x8 grid around each of 6 rectangles (ordinary, '
         'rational, zero-width, zero-height, single point, offset) = all 9x9 realisable outcode pairs x {one edge, two '
-        'edges, corner, grazing, parallel, zero length}, plus per-outcode-pair structured cases (corner-aimed, grazing, '
-        'four-clip diagonals) and random rationals; float stream: the same structures on doubles, scale 1e-6..1e6, a '
-        'third aimed through a rectangle corner, ulp-perturbed grazing. A case is non-trivial unless both ends are '
-        'inside; distinct by (stream, segment, bounds)')
+        'edges, corner, grazing, parallel, zero length}; every exactly vertical / horizontal / zero-length segment in '
+        'BOTH directions through, along and beside every edge and corner (7x7x7 per axis) of those and of random '
+        'rectangles; per-outcode-pair structured cases (corner-aimed, grazing, four-clip diagonals, axis-parallel) and '
+        'random rationals. Float stream: the same structures on doubles, scale 1e-6..1e6, a third aimed through a '
+        'corner, ulp-perturbed grazing; a far stream translated by 1e3..1e12 with extents 1e-6..1 (nearly vertical / '
+        'horizontal segments 0..8 ulps wide with the clipped edge between the ends, corner-aimed); magnitudes up to '
+        '1e+-90. Sequence stream: every case again, consecutively, on long-lived segment/bounds list objects '
+        'overwritten in place (both / bounds only / segment only, blocks of 40). A case is non-trivial unless both '
+        'ends are inside; distinct by (stream, segment, bounds)')
 TRUSTED = ['hand-written model C08.clipSegment tied to plot_utils.clip_segment by exact differential execution on '
            'Fractions (accept flag, both endpoints, pass count) in this run',
            'Python fractions.Fraction arithmetic = exact rational arithmetic; Python comparison of Fractions/floats is exact',
@@ -26,8 +31,11 @@ TRUSTED = ['hand-written model C08.clipSegment tied to plot_utils.clip_segment b
 ASSUMPTIONS = ['coordinates are finite numbers; rectangle has x_min <= x_max and y_min <= y_max',
                'float stream: every coordinate is 0 or has magnitude within [1e-100, 1e100] (binary64 range effects - overflow of '
                'the slope quotient for coordinates that differ by subnormal amounts - are outside the domain, see '
-               'out_of_domain_differences); generated magnitudes 1e-9 .. 1e7; tolerance 1e-9*scale with scale = largest '
-               'absolute input coordinate']
+               'out_of_domain_differences); generated magnitudes 1e-90 .. 1e90; tolerance 1e-9*scale with scale = largest '
+               'absolute input coordinate (measured worst deviation of the unchanged code, 8.5e5 cases incl. 3e5 translated by '
+               '1e3..1e12: 3.4e-16*scale)',
+               'the statement is silent about the argument lists and about earlier results: a call that modifies its arguments '
+               'or the object returned by an earlier call is reported as a model/implementation disagreement, not a violation']
 STAGED = []
 
 TOL_REL = F(1, 10 ** 9)
@@ -179,12 +187,56 @@ class Impl:
             return self.orig(*a, **k)
         self.counted = counted
 
-    def run(self, seg, b):
-        """-> ('ok', accept, [[x,y],[x,y]], passes) | ('raise', repr, passes)"""
+        # long-lived argument objects for the sequence stream: mutated in place between calls
+        self.seg_obj = [[0, 0], [0, 0]]
+        self.bnd_obj = [[0, 0], [0, 0]]
+        self.input_modified = None
+        self.prev_result_changed = None
+        self.last_ret = None
+
+    def run(self, seg, b, reuse=''):
+        """-> ('ok', accept, [[x,y],[x,y]], passes) | ('raise', repr, passes)
+        reuse: 's' / 'b' / 'sb' - the segment / bounds argument is the SAME list object as in every earlier reuse
+        call, overwritten in place with this case's numbers (the other one is a fresh list); afterwards
+        `self.input_modified` tells whether the call changed its arguments and `self.prev_result_changed` whether
+        the object returned by the PREVIOUS call (when it was not one of that call's own arguments) has changed"""
         self.calls = 0
+        self.input_modified = None
+        self.prev_result_changed = None
+        a_seg = self.seg_obj if 's' in reuse else [list(seg[0]), list(seg[1])]
+        a_b = self.bnd_obj if 'b' in reuse else [list(b[0]), list(b[1])]
+        for i in (0, 1):
+            for j in (0, 1):
+                a_seg[i][j] = seg[i][j]
+                a_b[i][j] = b[i][j]
+        ids = (id(a_seg), id(a_seg[0]), id(a_seg[1]), id(a_b), id(a_b[0]), id(a_b[1]))
         self.pu.clip_code = self.counted
         try:
-            r = self.pu.clip_segment([list(seg[0]), list(seg[1])], [list(b[0]), list(b[1])])
+            r = self.pu.clip_segment(a_seg, a_b)
+            same = ids == (id(a_seg), id(a_seg[0]), id(a_seg[1]), id(a_b), id(a_b[0]), id(a_b[1])) and \
+                all(len(o) == 2 for o in (a_seg, a_seg[0], a_seg[1], a_b, a_b[0], a_b[1])) and \
+                all(a_seg[i][j] == seg[i][j] and type(a_seg[i][j]) is type(seg[i][j]) and
+                    a_b[i][j] == b[i][j] and type(a_b[i][j]) is type(b[i][j]) for i in (0, 1) for j in (0, 1))
+            if not same:
+                self.input_modified = f'segment={a_seg!r} bounds={a_b!r}'
+                self.seg_obj = [[0, 0], [0, 0]]; self.bnd_obj = [[0, 0], [0, 0]]
+            # has this call changed the object the previous call returned?
+            if self.last_ret is not None:
+                obj, snap = self.last_ret
+                try:
+                    now = [[obj[0][0], obj[0][1]], [obj[1][0], obj[1][1]]]
+                except Exception:
+                    now = None
+                if now != snap:
+                    self.prev_result_changed = f'was {snap!r}, now {now!r}'
+            self.last_ret = None
+            try:
+                ro = r[1]
+                mine = (a_seg, a_seg[0], a_seg[1], a_b, a_b[0], a_b[1])
+                if not any(o is m for o in (ro, ro[0], ro[1]) for m in mine):
+                    self.last_ret = (ro, [[ro[0][0], ro[0][1]], [ro[1][0], ro[1][1]]])
+            except Exception:
+                pass
         except LoopGuard:
             return ('raise', 'no return after 200 loop passes (infinite loop)', self.calls // 2)
         except Exception as ex:
@@ -228,6 +280,24 @@ def grid_cases():
                 yield (p, q), b
 
 
+def axis_cases(b):
+    """exactly vertical / horizontal / zero-length segments, BOTH directions, through / along / beside every edge
+    and through every corner of rectangle `b` (orientation clause of the statement)"""
+    (xmin, ymin), (xmax, ymax) = b
+    w, h = (xmax - xmin) or F(1), (ymax - ymin) or F(1)
+    xs = [xmin - w, xmin - w / 3, xmin, xmin + (xmax - xmin) / 3, xmax, xmax + w / 3, xmax + w]
+    ys = [ymin - h, ymin - h / 3, ymin, ymin + (ymax - ymin) / 3, ymax, ymax + h / 3, ymax + h]
+    for x in xs:
+        for y1 in ys:
+            for y2 in ys:           # y1 == y2: zero length, at every region, on every edge and corner
+                yield ((x, y1), (x, y2)), b
+    for y in ys:
+        for x1 in xs:
+            for x2 in xs:
+                if x1 != x2:
+                    yield ((x1, y), (x2, y)), b
+
+
 def region_coord(rng, lo, hi, region, den):
     """a rational in region -1 (below lo), 0 (inside [lo,hi], boundary-biased), +1 (above hi)"""
     if region < 0:
@@ -262,7 +332,7 @@ def structured_case(rng, kind=None):
     den = rng.choice([1, 1, 2, 3, 5, 7, 12])
     b = rand_rect(rng, den)
     (xmin, ymin), (xmax, ymax) = b
-    kind = kind or rng.choice(['regions', 'regions', 'corner', 'graze', 'diag4', 'parallel', 'zero', 'random'])
+    kind = kind or rng.choice(['regions', 'regions', 'corner', 'graze', 'diag4', 'parallel', 'zero', 'axis', 'random'])
     if kind == 'regions':
         r = [rng.choice([-1, 0, 1]) for _ in range(4)]
         p = (region_coord(rng, xmin, xmax, r[0], den), region_coord(rng, ymin, ymax, r[1], den))
@@ -296,6 +366,14 @@ def structured_case(rng, kind=None):
             x = rng.choice([xmin, xmax]) + off; p = (x, ymin + a); q = (x, ymin + c)
         else:
             y = rng.choice([ymin, ymax]) + off; p = (xmin + a, y); q = (xmin + c, y)
+    elif kind == 'axis':
+        w, h = (xmax - xmin) or F(1), (ymax - ymin) or F(1)
+        xs = [xmin - w, xmin - w / 3, xmin, xmin + (xmax - xmin) / 3, xmax, xmax + w / 3, xmax + w]
+        ys = [ymin - h, ymin - h / 3, ymin, ymin + (ymax - ymin) / 3, ymax, ymax + h / 3, ymax + h]
+        if rng.random() < 0.5:
+            x = rng.choice(xs); p = (x, rng.choice(ys)); q = (x, rng.choice(ys))
+        else:
+            y = rng.choice(ys); p = (rng.choice(xs), y); q = (rng.choice(xs), y)
     elif kind == 'zero':
         r = [rng.choice([-1, 0, 1]) for _ in range(2)]
         p = (region_coord(rng, xmin, xmax, r[0], den), region_coord(rng, ymin, ymax, r[1], den)); q = p
@@ -370,6 +448,72 @@ def float_case(rng):
     return seg, bb
 
 
+def ulps(v, k):
+    for _ in range(abs(k)):
+        v = math.nextafter(v, math.inf if k > 0 else -math.inf)
+    return v
+
+
+def float_far_case(rng):
+    """coordinates far from the origin relative to the extent of the figure (offset 1e3..1e12, extent 1e-6..1):
+    cancellation in any formula that is not translation-stable shows here; a third nearly (or exactly) vertical /
+    horizontal with the clipped edge between the two ends, a few ulps apart"""
+    ox = rng.choice([-1, 1]) * 10.0 ** rng.uniform(3, 12)
+    oy = rng.choice([-1, 1]) * 10.0 ** rng.uniform(3, 12)
+    z = rng.random()
+    if z < 0.15:
+        oy = rng.choice([0.0, rng.uniform(-1, 1)])
+    elif z < 0.3:
+        ox = rng.choice([0.0, rng.uniform(-1, 1)])
+    e = 10.0 ** rng.uniform(-6, 0)
+    if rng.random() < 0.3:
+        e *= max(abs(ox), abs(oy)) * 10.0 ** rng.uniform(-6, 0)     # extent up to the size of the offset
+    k = rng.random()
+    if k < 0.4:
+        (p, q), b = structured_case(rng)
+        cx, cy = (lambda v: ox + float(v) * e / 8), (lambda v: oy + float(v) * e / 8)
+        seg = [[cx(p[0]), cy(p[1])], [cx(q[0]), cy(q[1])]]
+        bb = [[cx(b[0][0]), cy(b[0][1])], [cx(b[1][0]), cy(b[1][1])]]
+    elif k < 0.75:
+        # nearly vertical (or, transposed, nearly horizontal): the two ends 0..8 ulps apart across, an edge between them
+        n = rng.choice([0, 1, 2, 2, 3, 4, 8])
+        x1 = ox + rng.uniform(-1, 1) * e
+        x2 = ulps(x1, rng.choice([-1, 1]) * n)
+        lo, hi = min(x1, x2), max(x1, x2)
+        edge = ulps(lo, rng.randint(0, n)) if n else lo
+        y1, y2 = oy + rng.uniform(-2, 2) * e, oy + rng.uniform(-2, 2) * e
+        ys = sorted([oy + rng.uniform(-1, 1) * e, oy + rng.uniform(-1, 1) * e])
+        if rng.random() < 0.5:
+            xs = [edge, edge + rng.uniform(0, 2) * e]       # the edge is x_min
+        else:
+            xs = [edge - rng.uniform(0, 2) * e, edge]       # the edge is x_max
+        seg = [[x1, y1], [x2, y2]]
+        bb = [[xs[0], ys[0]], [xs[1], ys[1]]]
+        if rng.random() < 0.5:                                # transpose: nearly horizontal
+            seg = [[p[1], p[0]] for p in seg]; bb = [[p[1], p[0]] for p in bb]
+    else:
+        # through a corner of a far rectangle
+        xs = sorted([ox + rng.uniform(-1, 1) * e, ox + rng.uniform(-1, 1) * e])
+        ys = sorted([oy + rng.uniform(-1, 1) * e, oy + rng.uniform(-1, 1) * e])
+        bb = [[xs[0], ys[0]], [xs[1], ys[1]]]
+        cx, cy = rng.choice(xs), rng.choice(ys)
+        dx, dy = rng.uniform(-1, 1) * e, rng.uniform(-1, 1) * e
+        t1, t2 = rng.uniform(0.1, 3), rng.uniform(0.1, 3)
+        seg = [[cx - t1 * dx, cy - t1 * dy], [cx + t2 * dx, cy + t2 * dy]]
+    if bb[0][0] > bb[1][0]:
+        bb[0][0], bb[1][0] = bb[1][0], bb[0][0]
+    if bb[0][1] > bb[1][1]:
+        bb[0][1], bb[1][1] = bb[1][1], bb[0][1]
+    return seg, bb
+
+
+def float_wide_case(rng):
+    """an ordinary float case at an extreme (but in-domain) magnitude: 1e-90 .. 1e90"""
+    seg, bb = float_case(rng)
+    m = 2.0 ** rng.choice([-1, 1]) * 2.0 ** rng.randint(60, 290) if rng.random() < 0.5 else 2.0 ** -rng.randint(60, 290)
+    return [[v * m for v in p] for p in seg], [[v * m for v in p] for p in bb]
+
+
 # ----------------------------------------------------------------------------------------------
 def enc_case(stream, seg, b):
     if stream == 'float':
@@ -402,6 +546,8 @@ def load_corpus(ctx):
         for v in payload.get('violations', []) + payload.get('model_vs_implementation', []):
             inp = v.get('input')
             if isinstance(inp, dict) and 'segment' in inp:
+                if isinstance(inp.get('previous'), dict) and 'segment' in inp['previous']:
+                    cases.append(dec_case(inp['previous']))
                 cases.append(dec_case(inp))
     return cases
 
@@ -424,17 +570,69 @@ def run(ctx):
     float_cases = [(s, b) for (st, s, b) in corpus if st == 'float']
     n_corpus = len(corpus)
     exact_cases += list(grid_cases())
-    kinds = ['regions', 'corner', 'graze', 'diag4', 'parallel', 'zero', 'random']
-    for i in range(ctx.n(7000)):
-        exact_cases.append(structured_case(rng, kinds[i % len(kinds)] if i < 2100 else None))
-    nfloat = ctx.n(int(os.environ.get('C08_NFLOAT', '24000')))
+    for b in RECTS:
+        exact_cases += list(axis_cases(b))
+    for _ in range(3 * ctx.scale):
+        exact_cases += list(axis_cases(rand_rect(rng, rng.choice([1, 2, 3, 7]))))
+    kinds = ['regions', 'corner', 'graze', 'diag4', 'parallel', 'zero', 'axis', 'random']
+    for i in range(ctx.n(5000)):
+        exact_cases.append(structured_case(rng, kinds[i % len(kinds)] if i < 2400 else None))
+    nfloat = ctx.n(int(os.environ.get('C08_NFLOAT', '15000')))
+    nfar = ctx.n(int(os.environ.get('C08_NFAR', '7000')))
     # the exact cases as doubles (integers and dyadics are exact, so the float run must agree there too)
     for (s, b) in exact_cases[n_corpus:n_corpus + 3000:3]:
         float_cases.append(([[float(v) for v in p] for p in s], [[float(v) for v in p] for p in b]))
     for _ in range(nfloat):
         float_cases.append(float_case(rng))
+    n_near = len(float_cases)
+    for _ in range(nfar):
+        float_cases.append(float_far_case(rng))
+    n_far = len(float_cases)
+    for _ in range(nfar // 12):
+        float_cases.append(float_wide_case(rng))
     # one out-of-domain probe, logged only: an endpoint outside a boundary by a subnormal amount
     float_cases.append(([[-0.0002, -2.5e-323], [-0.00016, 0.0]], [[-0.0003, 0.0], [-0.0001, 0.0002]]))
+
+    # ---- sequences: every case is run a second time on two long-lived list objects that are overwritten in place
+    # between calls (state carried between calls, results cached by object identity, arguments modified in place)
+    prev = {'inp': None}
+    nseq = [0, 0, 0]
+    pending = []
+
+    def sequence_call(ns, nb, fs, fb, tol, res, inp, mode):
+        res2 = impl.run(ns, nb, reuse=mode)
+        nseq[0] += 1
+        sinp = {**inp, 'sequence': {'s': 'same segment list object', 'b': 'same bounds list object',
+                                    'sb': 'same segment and bounds list objects'}[mode] +
+                ' as in the previous call, overwritten in place', 'previous': prev['inp']}
+        prev['inp'] = dict(inp)
+        if impl.input_modified:
+            nseq[2] += 1
+            # the statement says nothing about the arguments: model comparison only (the model is a pure function)
+            ctx.disagree('clip_segment modified its argument lists', sinp, impl.input_modified, 'arguments unchanged')
+        if impl.prev_result_changed:
+            nseq[2] += 1
+            # results are values in the model; the statement speaks about a call's result when it is returned
+            ctx.disagree('the segment object returned by the previous call was changed by this call', sinp,
+                         impl.prev_result_changed, 'earlier results unchanged')
+        if res2 == res:
+            return
+        nseq[1] += 1
+        ctx.disagree('clip_segment on reused argument objects differs from the same call on fresh objects', sinp,
+                     show_out(res2), show_out(res))
+        if res2[0] == 'raise':
+            ctx.violate('clip_segment raised or did not return', sinp, res2[1], 'a result (accept flag, segment)',
+                        key='raises')
+            return
+        for what, obs, req in judge(fs, fb, res2[1], [[F(v) for v in p] for p in res2[2]], tol):
+            ctx.violate(what, sinp, f'{obs}; returned {show_out(res2)}', req)
+
+    def run_sequences():
+        """consecutive calls on the long-lived objects, no fresh-object call in between; blocks of 40 calls cycle
+        through: both arguments reused / only the bounds (one rectangle, many segments) / only the segment"""
+        for i, item in enumerate(pending):
+            sequence_call(*item, ('sb', 'b', 's')[(i // 40) % 3])
+        pending.clear()
 
     # ---- stream (i): exact ----------------------------------------------------------------------
     lines = ['c08 clip ' + ' '.join(frac_str(v) for v in (s[0][0], s[0][1], s[1][0], s[1][1],
@@ -448,6 +646,7 @@ def run(ctx):
         res = impl.run(s, b)
         scale = max([abs(v) for p in s + b for v in p])
         tol = TOL_REL * scale
+        pending.append((s, b, s, b, tol, res, inp))
         exact_iv = lb_interval(s, b)
         want = None if exact_iv is None else [on(s, exact_iv[0]), on(s, exact_iv[1])]
         nontriv = not (exact_iv == (0, 1))
@@ -489,6 +688,7 @@ def run(ctx):
         for what, obs, req in judge(s, b, acc, out, tol):
             ctx.violate(what, inp, f'{obs}; returned {show_out(res)}', req)
         ctx.sample({'stream': 'exact', **inp, 'impl': show_out(res), 'model': model, 'path': path})
+    run_sequences()
     if ctx.driver:
         need_pairs = {f'{a},{c}' for a in (0, 1, 2, 4, 5, 6, 8, 9, 10) for c in (0, 1, 2, 4, 5, 6, 8, 9, 10)}
         need_steps = {e + sd for e in '12' for sd in 'LRTB'}
@@ -502,7 +702,8 @@ def run(ctx):
     # ---- stream (ii): floats ---------------------------------------------------------------------
     nfs = 0
     over5 = 0
-    for (s, b) in float_cases:
+    for idx, (s, b) in enumerate(float_cases):
+        grp = 'float' if idx < n_near else 'far' if idx < n_far else 'wide'
         s = [[float(v) for v in p] for p in s]; b = [[float(v) for v in p] for p in b]
         if not (b[0][0] <= b[1][0] and b[0][1] <= b[1][1]) or \
                 not all(v == 0 or FLOAT_MIN <= abs(v) <= FLOAT_MAX for p in s + b for v in p):
@@ -514,8 +715,9 @@ def run(ctx):
         fs = [[F(v) for v in p] for p in s]; fb = [[F(v) for v in p] for p in b]
         scale = max(abs(v) for p in fs + fb for v in p)
         tol = TOL_REL * scale
+        pending.append((s, b, fs, fb, tol, res, inp))
         if res[0] == 'raise':
-            ctx.count(('float', inp['segment'], inp['bounds']), 'float raise')
+            ctx.count(('float', inp['segment'], inp['bounds']), f'{grp} raise')
             ctx.violate('clip_segment raised or did not return', inp, res[1], 'a result (accept flag, segment)',
                         key='raises')
             continue
@@ -526,7 +728,7 @@ def run(ctx):
         failsafe = acc and codes_end != (0, 0)
         nfs += failsafe
         ctx.count(('float', inp['segment'], inp['bounds']),
-                  f'float {"acc" if acc else "rej"} passes={passes}' + (' failsafe' if failsafe else ''),
+                  f'{grp} {"acc" if acc else "rej"} passes={passes}' + (' failsafe' if failsafe else ''),
                   not (acc and passes == 1))
         if passes > MAX_PASSES:
             over5 += 1
@@ -535,15 +737,19 @@ def run(ctx):
             bad = judge(fs, fb, acc, fout, tol, mm)
             for k, v in mm.items():
                 rel = float(v) / float(scale) if not k.endswith('2') else math.sqrt(float(v)) / float(scale)
-                if rel > metrics.get('float ' + k, (0, None))[0]:
-                    metrics['float ' + k] = (rel, inp)
+                if rel > metrics.get(f'float {grp} ' + k, (0, None))[0]:
+                    metrics[f'float {grp} ' + k] = (rel, inp)
         else:
             bad = judge(fs, fb, acc, fout, tol)
         for what, obs, req in bad:
             ctx.violate(what, inp, f'{obs}; returned {show_out(res)}', req)
         if len(ctx.samples) < 12 and passes >= 3:
             ctx.sample({'stream': 'float', **inp, 'impl': show_out(res)})
-    ctx.notes.append(f'float stream: {len(float_cases)} cases, {nfs} returned through the iterations>3 failsafe; '
+    run_sequences()
+    ctx.notes.append(f'sequence stream: {nseq[0]} calls on reused, in-place overwritten argument objects; {nseq[1]} differed '
+                     f'from the fresh-object call; {nseq[2]} modified their arguments')
+    ctx.notes.append(f'float stream: {len(float_cases)} cases ({n_near} ordinary, {n_far - n_near} translated by 1e3..1e12, '
+                     f'{len(float_cases) - n_far} at magnitudes up to 1e+-90), {nfs} returned through the iterations>3 failsafe; '
                      f'{over5} needed more than 5 loop passes; tolerance 1e-9*scale')
     if measure:
         ctx.notes.append('measured worst deviations relative to scale: ' +
